@@ -22,6 +22,7 @@ type Opts13 struct {
 	Binary         bool // one leaf may carry arbitrary bytes (no NUL)
 	NoBody         bool // the top-level message may end right after its header (no blank line)
 	PrefixBoundary bool // a nested multipart may use a boundary that extends its parent's boundary
+	EmptyPart      bool // a multipart may contain a completely empty body part (no header, no body)
 }
 
 type b13 struct {
@@ -276,6 +277,15 @@ func (b *b13) entity(p *Part, depth int, top bool) {
 		for i := 0; i < n; i++ {
 			b.w("--" + boundary + b.nl)
 			c := &Part{Start: b.buf.Len()}
+			if b.o.EmptyPart && r.P(1, 3) {
+				// delimiter, CRLF, delimiter: a body part of zero bytes (RFC 2046 allows it);
+				// it still counts in the numbering of its siblings
+				c.Type = "text/plain"
+				c.HeaderEnd, c.End = b.buf.Len(), b.buf.Len()
+				p.Children = append(p.Children, c)
+				b.w(b.nl)
+				continue
+			}
 			if r.P(1, 3) {
 				b.fld(c, "Content-Description", " ", b.word())
 			}
